@@ -48,13 +48,17 @@ const (
 	uInt32
 	uUint8
 	uFloat32
+	uMapInt64Str   // make(map[int64]string) with an entry: a key type member syntax cannot spell
+	uMapNilTyped   // element of a fresh []map[string]interface{}: a nil map
+	uSliceNilTyped // element of a fresh [][]int64: a nil slice
+	uStructVal     // what make(T) yields for a struct type: an addressable struct value
 	uNumClasses
 )
 
 var uNames = []string{"nil", "bool", "int64", "float64", "string-empty", "string-abc", "string-numeral", "slice-empty", "slice2",
 	"[]int64", "[]*int64-nil-elem", "[][]interface{}", "map-empty", "map1", "map[string]int64", "*interface{}", "*int64", "nil-*int64",
 	"chan-open", "chan-closed", "func0", "func1", "func-variadic", "func5", "go-identity", "go-variadic", "go-panics", "go-err",
-	"module", "error", "*struct", "int32", "uint8", "float32"}
+	"module", "error", "*struct", "int32", "uint8", "float32", "map[int64]string", "nil-map", "nil-[]int64", "struct-value"}
 
 // a small subset used for the positions that are not being varied
 var uBenign = []int{uInt64, uSlice2, uStringABC}
@@ -226,6 +230,14 @@ func zzValueOf(c int) reflect.Value {
 		return reflect.ValueOf(zzU8())
 	case uFloat32:
 		return reflect.ValueOf(float32(1.5))
+	case uMapInt64Str:
+		return reflect.ValueOf(map[int64]string{1: "a"})
+	case uMapNilTyped:
+		return reflect.ValueOf(make([]map[string]interface{}, 1)).Index(0)
+	case uSliceNilTyped:
+		return reflect.ValueOf(make([][]int64, 1)).Index(0)
+	case uStructVal:
+		return reflect.New(reflect.TypeOf(zzPair{})).Elem()
 	}
 	return nilValue
 }
